@@ -1,9 +1,9 @@
 import Q1t.Proofs.SimGFProb
 /-!
 C01, step 4: the single-shot generating function `gfShot` (the Born branching semantics in generating-
-function form), its quadratic homogeneity, the fragment F, and the multinomial law
-`exec_gf`: on F, from any homogeneous normalised state, the expected value of `∏_shots x(word)` is
-`∏_ranges gfShot(ops)(state, word)^count`.
+function form) and its quadratic homogeneity.  The fragment F and the multinomial law `exec_gf` (on F, from
+any homogeneous normalised state, the expected value of `∏_shots x(word)` is
+`∏_ranges gfShot(ops)(state, word)^count`) are in `SimGFStep.lean`, `SimGFAll.lean`, `SimGFExec.lean`.
 -/
 set_option linter.unusedSectionVars false
 set_option linter.unusedSimpArgs false
